@@ -3,6 +3,12 @@
 import json
 PROPS = [json.loads(l) for l in open('/verif/properties.jsonl')]
 CLAIMED = {
+ "C03": dict(
+    category="proof",
+    text="Coq theorems: C03_value (for ANY inner WCS with a sound correlation matrix the value listed for a dropped world coordinate is the value every element of the sliced cube had for it in the original cube), C03_agree_on_correlated (its key lemma: positions that agree on the correlated axes give the same value), C03_wcs_drops_accumulate / C03_extra_drops_accumulate (once dropped, always dropped under any further slice), C03_user_coords (after ANY interleaving of add / remove / slice the user coordinates are exactly the replay of the accepted adds and removes; refused operations change nothing). Tied to /repo by histories of <=5 operations compared against the model (raise bits, user coords, dropped wcs and extra coordinates with values; slices go through the C01 and C02 models) and a direct oracle incl. coupled celestial pairs.",
+    design_ref="DESIGN.md §5.3",
+    note="Trusted: Coq kernel + VM; Model/M_GlobalCoords.v transcription; astropy's dropped_world_dimensions (world_kept, dropped_value) is a dependency model validated by the same run; corr_sound is an explicit premise about the inner WCS; high-level object construction is astropy's (values read back numerically). A gWCS defect (clashing object keys when a 2-axis generic frame is joined with another generic frame) restricts the generator: two-table Quantity coordinates are only combined with Time / SkyCoord tables.",
+    technique="Coq proof over hand-written Gallina model + vm_compute correspondence check over operation histories"),
  "C02": dict(
     category="proof",
     text="Coq theorems: C02_order (the kept tables are exactly the parent's surviving tables in the parent's order - the transcription has lists where the pinned code had sets), C02_renumber (a surviving axis is renumbered to its rank among surviving axes), C02_values with C02_box_order (element k of a sliced table of any dimensionality is the parent's entry at the source element of k, via row-major index arithmetic). Tied to /repo by a correspondence check over chains of 1-3 slices (tables, axes, names, mapping, per-component values), an element-wise direct oracle through extra_coords.wcs and the mapping, and order probes in fresh interpreter processes with different hash seeds and heap layouts.",
